@@ -1394,8 +1394,12 @@ class Message(ABC):
                 if meta.proto_type == TYPE_MAP:
                     # Value represents a single key/value pair entry in the map.
                     current[value.key] = value.value
-                elif isinstance(current, list) and not isinstance(value, list):
-                    current.append(value)
+                elif isinstance(current, list):
+                    if isinstance(value, list):
+                        # A packed chunk, the field may be split over several.
+                        current.extend(value)
+                    else:
+                        current.append(value)
                 else:
                     setattr(self, field_name, value)
 
